@@ -5,7 +5,7 @@ are k/64 s with the odd part of k at most 7, relative speeds are powers of two, 
 performs is exact and traces can be compared byte for byte against the rational model.
 """
 from fractions import Fraction as Fr
-import random
+import os, random
 
 def q(x):
     x = Fr(x)
@@ -49,6 +49,7 @@ class Profile:
         self.mod_kinds = ["negate", "scale", "swizzle", "dzaxial", "dscale", "accby", "sconv", "sadd"]
         self.lifecycle_p = 0.08        # per-frame probability of a lifecycle op between frames
         self.react_p = 0.0             # probability that a scenario has observer reactions
+        self.reactev_p = 1.0           # … keyed by an event rather than by the delivery index
         self.post_p = 0.0              # per-frame probability of an op via commands (Update system)
         self.time_p = 0.15             # per-frame probability of a dt/speed/pause change
         self.ui_p = 0.0                # per-frame probability of a UI interaction change
@@ -410,7 +411,7 @@ class AppGen:
         n_frames = self.ri(p.n_frames)
         reacts = []
         if r.random() < p.react_p:
-            for _ in range(r.randint(1, 2)):
+            for _ in range(r.randint(1, 4)):
                 reacts.append((r.randint(1, n_frames - 1), r.randint(0, 5)))
         pads_live = list(pads_used)
         for f in range(n_frames):
@@ -440,11 +441,19 @@ class AppGen:
                         for c in world[e]:
                             cand.append(("remove", e, c))
                     ch = r.choice(cand)
+                    # mostly keyed by an event (entity, action, kind) of a holder — independent of the order in which the
+                    # events of different entities / actions are delivered —, sometimes by the delivery index
+                    head = f"react {f} {rk}"
+                    if live and r.random() < p.reactev_p:
+                        e = r.choice(live)
+                        acts = [a for a, c in self.action_owner.items() if c in world[e]] or list(self.action_owner) or [0]
+                        kind = r.choice(["started", "started", "fired", "fired", "fired", "ongoing", "ongoing", "completed", "canceled"])
+                        head = f"reactev {f} {e} {r.choice(acts)} {kind}"
                     if ch[0] == "remove":
                         del world[ch[1]][ch[2]]
-                        ops.append(f"react {f} {rk} remove {ch[1]} {ch[2]}")
+                        ops.append(f"{head} remove {ch[1]} {ch[2]}")
                     else:
-                        ops.append(f"react {f} {rk} rebuild")
+                        ops.append(f"{head} rebuild")
             if r.random() < p.post_p:
                 live = [e for e in ents if e in world]
                 cand = [("rebuild",)]
@@ -470,10 +479,58 @@ class AppGen:
         return lines
 
 
+DRIVER = os.path.join(os.path.dirname(os.path.dirname(os.path.abspath(__file__))), "lean", ".lake", "build", "bin", "bei_driver")
+
+
+def aim_reactions(scs, rng):
+    """Event-keyed reactions are generated blind (`reactev f e a kind op` with a guessed event) and mostly never fire.  Aim them:
+    run the model once on the batch without them, and re-key each one to an event that the model delivers in that frame (when
+    there is one).  Only a heuristic for choosing scripts — a reaction that fires changes what follows — and skipped when the
+    driver is not there."""
+    if not os.path.exists(DRIVER) or not any(l.startswith("reactev ") for sc in scs for l in sc):
+        return scs
+    import subprocess, tempfile
+    dry = [[l for l in sc if not l.startswith(("reactev ", "react "))] for sc in scs]
+    with tempfile.NamedTemporaryFile("w", suffix=".txt", delete=False) as h:
+        h.write("\n".join("\n".join(sc) for sc in dry) + "\n")
+        path = h.name
+    try:
+        out = subprocess.run([DRIVER, path], capture_output=True, text=True, timeout=600).stdout
+    except Exception:
+        return scs
+    finally:
+        os.unlink(path)
+    events, name, frame = {}, None, None           # (scenario, frame) -> [(e, a, kind)]
+    for l in out.splitlines():
+        t = l.split(" ")
+        if t[0] == "scenario":
+            name, frame = t[1], None
+        elif t[0] == "frame":
+            frame = int(t[1])
+        elif t[0] == "endframe":
+            frame = None
+        elif t[0] == "dlv" and frame is not None:
+            events.setdefault((name, frame), []).append((t[1], t[2], t[3]))
+    res = []
+    for sc in scs:
+        name = sc[0].split(" ")[1]
+        new = []
+        for l in sc:
+            t = l.split(" ")
+            if t[0] == "reactev":
+                ev = events.get((name, int(t[1])))
+                if ev and rng.random() < 0.85:
+                    e, a, kind = rng.choice(ev)
+                    l = " ".join(["reactev", t[1], e, a, kind] + t[5:])
+            new.append(l)
+        res.append(new)
+    return res
+
+
 def app_batch(seed, n, prof, prefix):
     rng = random.Random(seed)
     g = AppGen(rng, prof)
     out = []
     for i in range(n):
         out.append(g.scenario(f"{prefix}{i}"))
-    return out
+    return aim_reactions(out, random.Random(seed + 1))
